@@ -25,6 +25,28 @@ func oneHistory(r *corr.Run, nrep, steps int, focus string) {
 		}
 	}()
 	snapPct := []int{0, 8, 20, 35}[r.Intn(4)]
+	// guard-directed opening (about half of the histories): every replica adds concurrently on the same heads
+	// (>= 3 sibling changes with 3+ replicas, arriving at each replica in a different order), the head updates
+	// are delivered, then every replica adds locally on top of the merge (several heads, parents = all heads)
+	if r.Chance(55) {
+		for round := 0; round < 1+r.Intn(2) && !w.failed; round++ {
+			for _, rep := range w.reps {
+				if !w.failed {
+					w.localAdd(rep, false)
+					if r.Chance(40) && !w.failed {
+						w.localAdd(rep, false) // a branch of depth 2
+					}
+				}
+			}
+			for k := 0; k < 200 && len(w.queue) > 0 && !w.failed; k++ {
+				w.deliverOne()
+			}
+			if !w.failed && r.Chance(50) {
+				w.crossCheck()
+			}
+		}
+		r.Count("history.opening.burst")
+	}
 	for step := 0; step < steps && !w.failed && r.TimeLeft(); step++ {
 		rep := w.reps[r.Intn(len(w.reps))]
 		k := r.Intn(100)
@@ -124,10 +146,18 @@ func Run(r *corr.Run) {
 	r.SetRule("one case = one honest multi-replica history on the real objecttree over real any-store storage (local adds with parents = heads and snapshot = current root, snapshots, head updates delivered reordered/duplicated/dropped, full syncs through the real load iterator with guard-directed batch limits, scrambled re-partitioned transfers, close+reopen, history trees), every step checked by the direct C06/C09 oracles; non-trivial = at least 6 changes; distinct = distinct op traces")
 	// pure objecttree.Tree stream first (fast, no storage): arbitrary DAGs and batches against the model
 	treeUntil := time.Now().Add(time.Until(r.Deadline) / 5)
-	for k := 0; time.Now().Before(treeUntil) && k < r.Pick(4000, 200000); k++ {
+	if os.Getenv("VERIF_TREE_STREAMS") == "history" { // development switch: only the history simulator
+		treeUntil = time.Now()
+	}
+	resetCorrState()
+	focusProp, otherCount = "", 0
+	if focus == "C06" || focus == "C09" {
+		focusProp = focus
+	}
+	for k := 0; time.Now().Before(treeUntil) && k < r.Pick(6000, 200000); k++ {
 		treeLevelCase(r)
-		if r.Issues() > 0 {
-			return
+		if violations(r) >= 3 {
+			return // failing inputs found; a disagreement alone never stops the search
 		}
 	}
 	for i := 0; r.TimeLeft(); i++ {
@@ -137,7 +167,7 @@ func Run(r *corr.Run) {
 			steps = 300
 		}
 		oneHistory(r, nrep, steps, focus)
-		if r.Issues() > 0 {
+		if violations(r) >= 3 {
 			return
 		}
 		if i+1 >= r.Pick(400, 100000) {
